@@ -848,6 +848,10 @@ def replay_ext(r, Path, System, tis):
     """re-run one recorded failing input of the extension parts; None = not one of ours"""
     from infretis.classes import repex as R
     fn = r.get("fn")
+    if fn == "float-class":
+        return replay_float(r, Path, System, tis)
+    if fn == "swap-then-wf":
+        return replay_swap_then_wf(r, Path, System, tis)
     if fn in ("load_paths", "run_md", "subt_acceptance"):
         exe = tempfile.mkdtemp(prefix="vp-c10-", dir="/var/tmp")
         cwd0 = os.getcwd()
@@ -914,6 +918,434 @@ def replay_ext(r, Path, System, tis):
     return None
 
 
+# ----------------------------------------------------------------------------------------------- float class
+# Order values that are NOT on a small integer / dyadic grid: values at an interface ± k ulp (double precision) and
+# ± k·2⁻²⁴ relative (single-precision resolution), runs of nearly equal maxima / minima with the true extreme not first.
+# The Lean model compares exactly (ℤ): every double is a dyadic rational, so all values of a case are multiplied by
+# their common power-of-two denominator and sent as (big) integers — exact, order and equality preserving.
+import math
+
+
+def near(rng, x):
+    """a double next to x: a few ulps away, or a few single-precision steps away"""
+    kind = rng.choice(("ulp", "ulp", "f32", "f32", "f32half", "same"))
+    k = rng.choice((1, 1, 2, 3)) * rng.choice((-1, 1))
+    if kind == "same":
+        return x
+    if kind == "ulp":
+        y = x
+        for _ in range(abs(k)):
+            y = math.nextafter(y, math.inf if k > 0 else -math.inf)
+        return y
+    rel = 2.0 ** -24 if kind == "f32" else 2.0 ** -26
+    y = x * (1.0 + k * rel) if x != 0.0 else k * 2.0 ** -150
+    return y
+
+
+def scaler(values):
+    """x ↦ x·D as an int, D the common (power of two) denominator of all the doubles given"""
+    D = 1
+    for v in values:
+        if v is not None:
+            D = max(D, Fraction(v).denominator)
+    return lambda v: None if v is None else int(Fraction(v) * D)
+
+
+def float_path(rng, marks, L):
+    """a path over the marks (interfaces, cap) and points between/around them, most of them perturbed by `near`;
+    contains runs of nearly equal values whose largest / smallest member is not the first"""
+    marks = sorted(set(marks))
+    lo, hi = marks[0], marks[-1]
+    span = (hi - lo) or 1.0
+    pts = list(marks) + [lo - 0.37 * span, hi + 0.41 * span] + [(a + b) / 2 for a, b in zip(marks, marks[1:])]
+    ops = []
+    while len(ops) < L:
+        c = rng.choice(pts)
+        if rng.random() < 0.35:                       # a run of near-ties around c, extreme somewhere inside
+            run = [near(rng, c) for _ in range(rng.randint(2, 5))]
+            run.insert(rng.randint(1, len(run)), max(run) + abs(max(run)) * 2.0 ** -25 if rng.random() < 0.5
+                       else min(run) - abs(min(run)) * 2.0 ** -25)
+            ops += run
+        else:
+            ops.append(near(rng, c) if rng.random() < 0.7 else c)
+    return tuple(ops[:L]) if rng.random() < 0.5 else tuple(ops)
+
+
+def float_cases(ctx):
+    rng = ctx.rng
+    sets = [(0.1, 0.3, 0.5), (-0.2, 0.0, 0.25, 0.7), (0.5, 0.5000001, 1.0), (1e-3, 2e-3, 3e-3, 5e-3), (-1.5, -0.9, -0.3),
+            (0.0, 1.0)]
+    cases = []
+    for _ in range(900 if ctx.quick else 15000):
+        intfs = rng.choice(sets)
+        n = len(intfs)
+        cap = rng.choice((None, None, intfs[-1], (intfs[-2] + intfs[-1]) / 2, near(rng, intfs[-1])))
+        marks = list(intfs) + ([cap] if cap is not None else [])
+        ops = float_path(rng, marks, rng.choice((3, 5, 8, 14, 30)))
+        # the very witness shape of a single-precision tie: max exactly on an interface, a value just below it first
+        if rng.random() < 0.15:
+            lam = rng.choice(intfs)
+            below = lam * (1 - 2.0 ** -26) if lam > 0 else (lam * (1 + 2.0 ** -26) if lam < 0 else -2.0 ** -150)
+            ops = (intfs[0] - 0.1, below, lam, below, intfs[0] - 0.1)
+        moves = tuple(["sh"] + [rng.choice(("sh", "wf", "wf")) for _ in range(n - 1)])
+        lm1 = rng.choice((None, None, intfs[0] - 0.05, near(rng, intfs[0])))
+        cases.append((intfs, cap, lm1, moves, ops))
+    return cases
+
+
+def float_part(ctx, Path, System, tis, have_model):
+    from infretis.classes import repex as R
+    cases = float_cases(ctx)
+    rows = []
+    exe = tempfile.mkdtemp(prefix="vp-c10f-", dir="/var/tmp")
+    cwd0 = os.getcwd()
+    try:
+        os.chdir(exe)
+        for ci, (intfs, cap, lm1, moves, ops) in enumerate(cases):
+            rev = ops[::-1]
+            capv = intfs[-1] if cap is None else cap
+            k = ci % (len(intfs) - 1)
+            l = intfs[k]
+            row = {}
+            # ordermax / ordermin
+            p = mk(ops, Path, System)
+            try:
+                (vmax, imax), (vmin, imin) = p.ordermax, p.ordermin
+                row["ext"] = (float(vmax), int(imax), float(vmin), int(imin))
+            except Exception as e:  # noqa: BLE001
+                row["ext"] = err_kind(e)
+            # wirefence weight forward / reversed, compute_weight
+            def w(o, l=l, capv=capv):
+                try:
+                    return int(tis.wirefence_weight_and_pick(mk(o, Path, System), l, capv)[0])
+                except Exception as e:  # noqa: BLE001
+                    return err_kind(e)
+            row["w"], row["wr"] = w(ops), w(rev)
+            try:
+                v = tis.compute_weight(mk(ops, Path, System), [intfs[0], l, capv], "wf")
+                row["cw"] = str(int(v)) if float(v) == int(v) else repr(v)
+            except Exception as e:  # noqa: BLE001
+                row["cw"] = err_kind(e)
+            # weight vector: plus forward / reversed, minus
+            row["cv"] = real_cvfull(tis, Path, System, False, lm1, cap, intfs, moves, ops, "list", None)
+            row["cvr"] = real_cvfull(tis, Path, System, False, lm1, cap, intfs, moves, rev, "list", None)
+            row["cvm"] = real_cvfull(tis, Path, System, True, lm1, cap, intfs, moves, ops, "list", None)
+            # load_paths on a few (the path as every plus path)
+            if ci % 9 == 0:
+                st = make_state(R, intfs, cap, None, moves)
+                opss = tuple([ops] * len(intfs))
+                row["load"] = real_load(st, Path, System, opss)
+            rows.append(row)
+    finally:
+        os.chdir(cwd0)
+        import shutil
+        shutil.rmtree(exe, ignore_errors=True)
+    if have_model:
+        lines, where = [], []
+        for ci, (intfs, cap, lm1, moves, ops) in enumerate(cases):
+            sc = scaler(list(intfs) + [cap, lm1] + list(ops))
+            capv = intfs[-1] if cap is None else cap
+            l = intfs[ci % (len(intfs) - 1)]
+            I, O = [sc(x) for x in intfs], [sc(x) for x in ops]
+            lines.append(f"weight {sc(l)} {sc(capv)} {lst(O)}")
+            lines.append(f"weight {sc(l)} {sc(capv)} {lst(O[::-1])}")
+            lines.append(f"cwm {I[0]} {sc(l)} {sc(capv)} wf {lst(O)}")
+            lines.append(f"cvfull 0 {opt(sc(lm1))} {opt(sc(cap))} {lst(I)} {lst(moves)} {lst(O)}")
+            lines.append(f"cvfull 1 {opt(sc(lm1))} {opt(sc(cap))} {lst(I)} {lst(moves)} {lst(O)}")
+            if "load" in rows[ci]:
+                lines.append(f"loadw - {opt(sc(cap))} {lst(I)} {lst(moves)} {len(I)} " + " ".join(lst(O) for _ in I))
+                where.append((ci, "load"))
+        out = ctx.driver(lines)
+        it = iter(out)
+    for ci, (intfs, cap, lm1, moves, ops) in enumerate(cases):
+        ctx.count(1, branch="float_class")
+        row = rows[ci]
+        capv = intfs[-1] if cap is None else cap
+        l = intfs[ci % (len(intfs) - 1)]
+        rep = {"fn": "float-class", "intfs": [x.hex() for x in intfs], "cap": None if cap is None else cap.hex(),
+               "lm1": None if lm1 is None else lm1.hex(), "moves": list(moves), "ops": [x.hex() for x in ops], "k": ci % (len(intfs) - 1),
+               "decimal": {"intfs": list(intfs), "cap": cap, "ops": list(ops)}}
+        if have_model:
+            m_w, m_wr, m_cw, m_cv, m_cvm = (next(it).split(" | ")[0], next(it).split(" | ")[0], next(it), next(it), next(it))
+            for name, code, model in (("weight", str(row["w"]), m_w), ("weight(reversed)", str(row["wr"]), m_wr),
+                                      ("compute_weight", row["cw"], m_cw), ("calc_cv_vector", row["cv"], m_cv),
+                                      ("calc_cv_vector(minus)", row["cvm"], m_cvm)):
+                if code != model:
+                    ctx.disagree(dict(rep, what=name), code, model)
+            if "load" in row:
+                m_load = next(it)
+                if row["load"][0] != m_load:
+                    ctx.disagree(dict(rep, what="load_paths"), row["load"][0], m_load)
+        for sig, text in judge_float(intfs, cap, lm1, moves, ops, l, capv, row):
+            ctx.fail(sig, text, rep)
+        ctx.distinct(("float", intfs, cap, moves, ops))
+        if ci % 1999 == 0:
+            ctx.sample(dict(rep, code=row["cv"]))
+
+
+def judge_float(intfs, cap, lm1, moves, ops, l, capv, row):
+    """the property on the implementation's own output, every comparison exact (Python compares doubles exactly)"""
+    out = []
+    hi, lo = max(ops), min(ops)
+    e = row["ext"]
+    if isinstance(e, str):
+        out.append(("C10:ordermax-raises", f"ordermax/ordermin raised {e}"))
+    else:
+        vmax, imax, vmin, imin = e
+        if vmax != hi or not (0 <= imax < len(ops)) or ops[imax] != hi:
+            out.append(("C10:ordermax-not-the-maximum", f"ordermax = ({vmax!r}, {imax}) but the largest order value is {hi!r}"))
+        if vmin != lo or not (0 <= imin < len(ops)) or ops[imin] != lo:
+            out.append(("C10:ordermin-not-the-minimum", f"ordermin = ({vmin!r}, {imin}) but the smallest order value is {lo!r}"))
+    if l <= capv:
+        sw = py_spec(ops, l, capv)[0]
+        if row["w"] != sw:
+            out.append(("C10:weight-ne-spec", f"wirefence weight {row['w']} ≠ number of frames on valid sub-paths {sw}"))
+        if row["wr"] != row["w"]:
+            out.append(("C10:weight-not-reversal-symmetric", f"weight {row['w']} but {row['wr']} for the time-reversed path"))
+        if intfs[0] <= capv and row["cw"] != str(py_cw(ops, intfs[0], l, capv, "wf")):
+            out.append(("C10:compute-weight-doubling", f"compute_weight {row['cw']}, expected {py_cw(ops, intfs[0], l, capv, 'wf')}"))
+    out += judge_cvfull(False, lm1, cap, intfs, moves, ops, row["cv"])
+    out += judge_cvfull(True, lm1, cap, intfs, moves, ops, row["cvm"])
+    if not row["cv"].startswith("err"):
+        vals = row["cv"].split()[1:]
+        for i in range(len(intfs) - 1):            # entry k non-zero ⇔ λ_k ≤ max(order), for shooting ensembles
+            if i + 1 < len(moves) and moves[i + 1] != "wf" and i < len(vals) and (vals[i] != "0") != (intfs[i] <= hi):
+                out.append(("C10:cv-vector-crossing-vs-exact-maximum",
+                            f"entry {i} is {vals[i]} although λ_{i} = {intfs[i]!r} {'≤' if intfs[i] <= hi else '>'} max(order) = {hi!r}"))
+    if row["cvr"] != row["cv"]:
+        out.append(("C10:cv-vector-not-reversal-symmetric", f"weight vector {row['cv']} but {row['cvr']} for the time-reversed path"))
+    if "load" in row:
+        got, routed = row["load"]
+        opss = tuple([ops] * len(intfs))
+        if got.startswith("err"):
+            out.append(("C10:load-paths-raises", f"load_paths raised {got}"))
+        elif all(x <= capv for x in intfs) and got != want_load(intfs, cap, moves, opss):
+            out.append(("C10:load-paths-weights", f"weights given by load_paths {got}; expected {want_load(intfs, cap, moves, opss)}"))
+    return out
+
+
+def replay_float(r, Path, System, tis):
+    from infretis.classes import repex as R
+    fh = float.fromhex
+    intfs = tuple(fh(x) for x in r["intfs"])
+    cap = None if r["cap"] is None else fh(r["cap"])
+    lm1 = None if r["lm1"] is None else fh(r["lm1"])
+    ops = tuple(fh(x) for x in r["ops"])
+    moves = tuple(r["moves"])
+    capv = intfs[-1] if cap is None else cap
+    l = intfs[r["k"]]
+    p = mk(ops, Path, System)
+    row = {}
+    try:
+        (vmax, imax), (vmin, imin) = p.ordermax, p.ordermin
+        row["ext"] = (float(vmax), int(imax), float(vmin), int(imin))
+    except Exception as e:  # noqa: BLE001
+        row["ext"] = err_kind(e)
+    def w(o):
+        try:
+            return int(tis.wirefence_weight_and_pick(mk(o, Path, System), l, capv)[0])
+        except Exception as e:  # noqa: BLE001
+            return err_kind(e)
+    row["w"], row["wr"] = w(ops), w(ops[::-1])
+    try:
+        v = tis.compute_weight(mk(ops, Path, System), [intfs[0], l, capv], "wf")
+        row["cw"] = str(int(v)) if float(v) == int(v) else repr(v)
+    except Exception as e:  # noqa: BLE001
+        row["cw"] = err_kind(e)
+    row["cv"] = real_cvfull(tis, Path, System, False, lm1, cap, intfs, moves, ops, "list", None)
+    row["cvr"] = real_cvfull(tis, Path, System, False, lm1, cap, intfs, moves, ops[::-1], "list", None)
+    row["cvm"] = real_cvfull(tis, Path, System, True, lm1, cap, intfs, moves, ops, "list", None)
+    exe = tempfile.mkdtemp(prefix="vp-c10f-", dir="/var/tmp")
+    cwd0 = os.getcwd()
+    try:
+        os.chdir(exe)
+        row["load"] = real_load(make_state(R, intfs, cap, None, moves), Path, System, tuple([ops] * len(intfs)))
+    finally:
+        os.chdir(cwd0)
+        import shutil
+        shutil.rmtree(exe, ignore_errors=True)
+    bad = judge_float(intfs, cap, lm1, moves, ops, l, capv, row)
+    print("code:", row)
+    for sig, text in bad:
+        print("still fails:", sig, text)
+    return 1 if bad else 0
+
+
+# ----------------------------------------------------------------------------------------------- zero swap, then wf in [0+]
+def swap_then_wf_cases(ctx):
+    from props import c11
+    rng = ctx.rng
+    cases = []
+    for _ in range(120 if ctx.quick else 2500):
+        lamN = rng.choice((5, 5, 6))
+        cap = rng.choice((None, None, None, 3, 4, lamN))
+        mid = rng.choice((2, 3))
+        wf0 = rng.random() < 0.15
+        inner = lambda k: [rng.choice((1, 2, 2, 3, 4, 4)) for _ in range(k)]  # noqa: E731
+        o1 = [rng.choice((-1, 0))] + inner(rng.randint(2, 8)) + [rng.choice((-1, -1, lamN + 1))]
+        o0 = [1] + [rng.choice((-1, -2)) for _ in range(rng.randint(1, 3))] + [1]
+        fw = inner(rng.randint(1, 8)) + [rng.choice((-1, -1, lamN + 1))]
+        bw = [rng.choice((-1, -2)) for _ in range(rng.randint(0, 3))] + [1]
+        c = {"kind": "retis", "tag": "c10-swap-then-wf",
+             "e0": c11.ens((c11.NEG, 0, 0), 1000, (False, True), wf0, cap), "e1": c11.ens((0, 0, lamN), 1000, (True, False), True, cap),
+             "old0": [(o, (100 + k, 1), False, 0) for k, o in enumerate(o0)],
+             "old1": [(o, (200 + k, 1), False, 0) for k, o in enumerate(o1)],
+             "scripts": [c11.mk_script(bw, 300, -1), c11.mk_script(fw, 400, 1)], "xi": Fraction(0)}
+        cases.append({"c": c, "intfs": (0, mid, lamN), "cap": cap, "moves": ("wf" if wf0 else "sh", "wf", rng.choice(("sh", "wf"))),
+                      "xi2": None})
+    return cases
+
+
+def run_swap_then_wf(W, R, tis, Path, System, case, xi2_of):
+    """the real retis_swap_zero on the ensemble dicts REPEX_state.initiate_ensembles builds (ONE tis_set shared by all
+    ensembles), then the real wire_fencing (up to its first shoot) in [0+] on the SAME dicts and the returned path"""
+    st = make_state(R, case["intfs"], case["cap"], None, case["moves"])
+    tis_set = st.config["simulation"]["tis_set"]
+    before = {k: v for k, v in tis_set.items()}
+    live = {"ens": (st.ensembles[0], st.ensembles[1])}
+    r = W.run(case["c"], live=live)
+    if "err" in r:
+        return {"swap": r["err"]}
+    path1 = r["objs"][1]
+    ops1 = tuple(int(s.order[0]) for s in path1.phasepoints)
+    after = {k: v for k, v in tis_set.items() if k != "accept_all"}
+    res = {"swap": ("ACC" if r["accept"] else r["status"]), "ops1": ops1,
+           "settings_changed": {k: (before.get(k, "<absent>"), after.get(k, "<absent>")) for k in set(before) | set(after)
+                                if before.get(k, "<absent>") != after.get(k, "<absent>")}}
+    if not r["accept"]:
+        return res
+    # the weight vector run_md gives the new [0+] path
+    try:
+        res["cv"] = nums(tis.calc_cv_vector(path1, st.interfaces, st.mc_moves, tis_set["lambda_minus_one"], cap=st.cap, minus=False))
+    except Exception as e:  # noqa: BLE001
+        res["cv"] = err_kind(e)
+    xi2 = xi2_of(ops1)
+    res["xi2"] = xi2
+    ens1 = st.ensembles[1]
+    g = OneDraw(float(xi2))
+    ens1["rgen"] = g
+    ids = {id(s): k for k, s in enumerate(path1.phasepoints)}
+    calls = []
+
+    def probe(sub_ens, segment, engine, start_cond=("L",)):
+        calls.append((list(sub_ens["interfaces"]), [ids.get(id(f), -1) for f in segment.phasepoints]))
+        return False, segment, "BTL"
+    real = tis.shoot
+    tis.shoot = probe
+    try:
+        try:
+            ok, out, status = tis.wire_fencing(ens1, path1, None)
+            if not calls:
+                res["seed"] = "none"
+            else:
+                sub, idx = calls[0]
+                res["seed"] = f"{nums(sub)} | {idx[0]} | {lst([ops1[j] for j in idx]) if min(idx) >= 0 else idx}"
+            res["draws"] = g.calls
+        except Exception as e:  # noqa: BLE001
+            res["seed"] = err_kind(e)
+    finally:
+        tis.shoot = real
+    return res
+
+
+def want_seed(intfs, cap, ops1, xi2):
+    capv = intfs[-1] if cap is None else cap
+    n, segs = py_spec(ops1, intfs[0], capv)
+    if not n:
+        return "none", 0
+    a, b, _c = spec_pick(segs, n, xi2)
+    return f"{lst([intfs[0], intfs[0], capv])} | {a} | {lst(ops1[a:b + 1])}", n
+
+
+def swap_then_wf_part(ctx, Path, System, tis, have_model):
+    from infretis.classes import repex as R
+    from props import c11
+    rng = ctx.rng
+    cases = swap_then_wf_cases(ctx)
+    W = c11.World()
+    cwd0 = os.getcwd()
+    exe = tempfile.mkdtemp(prefix="vp-c10s-", dir="/var/tmp")
+
+    def xi2_of_factory(case):
+        def f(ops1):
+            capv = case["intfs"][-1] if case["cap"] is None else case["cap"]
+            n, segs = py_spec(ops1, case["intfs"][0], capv)
+            return rng.choice(xi_grid(segs, n)) if n else Fraction(1, 2)
+        return f
+    results = []
+    try:
+        os.chdir(exe)
+        for case in cases:
+            results.append(run_swap_then_wf(W, R, tis, Path, System, case, xi2_of_factory(case)))
+    finally:
+        os.chdir(cwd0)
+        W.close()
+        import shutil
+        shutil.rmtree(exe, ignore_errors=True)
+    todo = [(k, res) for k, res in enumerate(results) if "seed" in res]
+    if have_model and todo:
+        out = ctx.driver([f"wfseed2 100000 {cases[k]['intfs'][0]} {cases[k]['intfs'][-1]} {opt(cases[k]['cap'])} {frac_token(res['xi2'])} "
+                          f"{lst(res['ops1'])}" for k, res in todo])
+        model = {k: o for (k, _), o in zip(todo, out)}
+    for k, res in enumerate(results):
+        case = cases[k]
+        ctx.count(1, branch="swap_then_wf:" + ("moved" if "seed" in res else "swap-" + str(res["swap"])))
+        if "seed" not in res:
+            continue
+        rep = {"fn": "swap-then-wf", "case": case["c"], "intfs": list(case["intfs"]), "cap": case["cap"], "moves": list(case["moves"]),
+               "xi2": str(res["xi2"])}
+        want, n = want_seed(case["intfs"], case["cap"], res["ops1"], res["xi2"])
+        if have_model:
+            m = model[k]
+            m_short = "none" if m == "none" else " | ".join(m.split(" | ")[:3])
+            if res["seed"] != m_short:
+                ctx.disagree(rep, res["seed"], m_short, note="wire_fencing in [0+] right after retis_swap_zero on the same ensemble dicts")
+        if res["seed"] != want or res.get("draws") != (1 if n else 0):
+            ctx.fail("C10:wf-after-zero-swap", f"after an accepted zero swap the new [0+] path {list(res['ops1'])} has weight vector {res['cv']} "
+                     f"({n} frames on valid sub-paths of [λ0, cap)), but wire_fencing on the same ensemble settings seeds its jumps with "
+                     f"{res['seed']} (expected {want}); settings changed by the swap: {res['settings_changed'] or 'none'}",
+                     dict(rep, code=res["seed"], spec=want))
+        elif res["settings_changed"]:
+            ctx.fail("C10:zero-swap-rewrites-settings", f"retis_swap_zero changed the shared tis_set: {res['settings_changed']}", rep)
+        if n:
+            ctx.distinct(("swapwf", k, res["ops1"]))
+        if k % 97 == 0:
+            ctx.sample(dict(rep, code=res["seed"], cv=res["cv"]))
+
+
+def replay_swap_then_wf(r, Path, System, tis):
+    from infretis.classes import repex as R
+    from props import c11
+
+    def detuple(c):
+        c = dict(c)
+        for e in ("e0", "e1"):
+            c[e] = dict(c[e], i=tuple(c[e]["i"]), sc=tuple(c[e]["sc"]))
+        c["old0"] = [(o, tuple(cf), vr, vp) for (o, cf, vr, vp) in c["old0"]]
+        c["old1"] = [(o, tuple(cf), vr, vp) for (o, cf, vr, vp) in c["old1"]]
+        c["scripts"] = [(v0, [(o, tuple(cf), vp) for (o, cf, vp) in fr]) for (v0, fr) in c["scripts"]]
+        c["xi"] = Fraction(c["xi"])
+        return c
+    case = {"c": detuple(r["case"]), "intfs": tuple(r["intfs"]), "cap": r["cap"], "moves": tuple(r["moves"])}
+    W = c11.World()
+    cwd0 = os.getcwd()
+    exe = tempfile.mkdtemp(prefix="vp-c10s-", dir="/var/tmp")
+    try:
+        os.chdir(exe)
+        res = run_swap_then_wf(W, R, tis, Path, System, case, lambda ops1: Fraction(r["xi2"]))
+    finally:
+        os.chdir(cwd0)
+        W.close()
+        import shutil
+        shutil.rmtree(exe, ignore_errors=True)
+    print("code:", res)
+    if "seed" not in res:
+        return 0
+    want, n = want_seed(case["intfs"], case["cap"], res["ops1"], Fraction(r["xi2"]))
+    print("spec:", want)
+    return 1 if (res["seed"] != want or res.get("draws") != (1 if n else 0) or res["settings_changed"]) else 0
+
+
 def run_ext(ctx, Path, System, tis, have_model, code_move_seed):
     trace_part(ctx, Path, System, tis, have_model)
     segment_part(ctx, Path, System, tis, have_model)
@@ -922,6 +1354,8 @@ def run_ext(ctx, Path, System, tis, have_model, code_move_seed):
     has_part(ctx, Path, System, tis, have_model)
     callsite_part(ctx, Path, System, tis, have_model)
     seed2_part(ctx, Path, System, tis, have_model, code_move_seed)
+    float_part(ctx, Path, System, tis, have_model)
+    swap_then_wf_part(ctx, Path, System, tis, have_model)
     for a in [
         "scan trace: the per-iteration state of the real function is read from its frame locals key_l/key_r/isave/path_arr "
         "(sys.settrace); if those names disappear the state comparison is skipped (count in scan_trace_untraced_cases)",
@@ -929,6 +1363,10 @@ def run_ext(ctx, Path, System, tis, have_model, code_move_seed):
         "rational one compare alike",
         "call sites: REPEX_state.load_paths runs with add_traj replaced by a recorder (the state matrix is C05's); run_md runs "
         "with select_shoot replaced by a stub that returns the trial path",
+        "float class: order values, interfaces and caps that are arbitrary doubles (interface ± k ulp, ± k·2⁻²⁴ relative, near-tie "
+        "runs) reach the Lean model multiplied by their common power-of-two denominator (exact integers)",
+        "two-move sequence: retis_swap_zero through C11's World on the ensemble dicts of REPEX_state.initiate_ensembles (one shared "
+        "tis_set), then wire_fencing up to its first shoot in [0+] on the same dicts",
         "Path.maxlen smaller than a segment (frames refused by Path.append) is compared model-vs-code only: Path.append keeps "
         "length ≤ maxlen for every path the library builds",
     ]:
